@@ -54,6 +54,11 @@ def lemma_vcs():
     # GUARD: SUM(ite(c, f, 0)) is the sum of an ordinary summand: nothing to prove (atoms with guards are sums of ite terms)
     # CONST: SUM_{k<j} 1 = j
     add("sum_const", lambda x: Sh(x) == z3.ToReal(x), [], h_summand=lambda k: z3.RealVal(1))
+    # RANGE: a bound on the index inside the guard moves into the range of the sum.  m(x) = min(x, max(p, 0))
+    p = z3.Int("p")
+    m = lambda x: z3.If(p <= 0, z3.IntVal(0), z3.If(p <= x, p, x))
+    add("sum_range_upper", lambda x: Sh(x) == Sf(m(x)), [], h_summand=lambda k: z3.If(k < p, f(k), z3.RealVal(0)))
+    add("sum_range_lower", lambda x: Sh(x) == Sf(x) - Sf(m(x)), [], h_summand=lambda k: z3.If(k >= p, f(k), z3.RealVal(0)))
     return out
 
 
